@@ -426,8 +426,13 @@ PLAN["C14"] = {
              [run("lr_seqlock", t, c=4) for t in ["seqlock_b16_s1", "seqlock_b16_s2", "seqlock_b16_s3", "seqlock_b24_s2", "seqlock_b12_s2", "seqlock_b16_s4"]] +
              [run("lr_seqlock", "seqlock_b16_s2", c=2, mode="wmm", d=2), run("lr_seqlock", "seqlock_b16_s1", c=2, mode="wmm", d=1),
               run("lr_seqlock", "seqlock_b16_s2", c=2, opt={"writers": 2, "readers": 1, "loads": 2, "stores": 2}, weight=3),
-              run("lr_seqlock", "seqlock_b12_s2", c=3, variant="tsanv")],
+              run("lr_seqlock", "seqlock_b12_s2", c=3, variant="tsanv"),
+              # updates whose functor leaves the value bit-identical (seed C14e: such an update skipped the copy into the next slot)
+              run("lr_seqlock", "seqlock_b16_s2", c=3, opt={"noop": 2}, weight=0.6), run("lr_seqlock", "seqlock_b16_s3", c=3, opt={"noop": 1, "stores": 4, "loads": 2}, weight=0.6),
+              run("lr_seqlock", "seqlock_b16_s2", c=2, opt={"noop": 1, "writers": 2, "readers": 1, "loads": 2, "stores": 2}, weight=0.8)],
     "thorough": [run("lr_seqlock", t, c=0, weight=0.2) for t in _rt] +
+                [run("lr_seqlock", t, c=4, opt={"noop": n}) for t in ["seqlock_b16_s1", "seqlock_b16_s2", "seqlock_b16_s3", "seqlock_b16_s4"] for n in (1, 2)] +
+                [run("lr_seqlock", "seqlock_b16_s2", c=2, opt={"noop": 1, "writers": 2, "readers": 1, "loads": 2, "stores": 2}, weight=2)] +
                 [run("lr_seqlock", t, c=4, weight=2) for t in ["seqlock_b16_s1", "seqlock_b16_s2", "seqlock_b16_s3", "seqlock_b24_s2", "seqlock_b12_s2", "seqlock_b16_s4"]] +
                 [run("lr_seqlock", "seqlock_b16_s2", c=2, opt={"writers": 2, "readers": 2, "loads": 1, "stores": 2}, weight=6),
                  run("lr_seqlock", "seqlock_b16_s3", c=2, opt={"writers": 2, "readers": 1, "loads": 2, "stores": 2}, weight=4),
